@@ -336,6 +336,21 @@ def deck():
     cell("deep-chain/setitem-cycle", *(chain + [["sec", "leaf", "t", bottom, {}], ["setitem", bottom, "sections", 0, top]]))
     cell("deep-chain/mid-cycle", *(chain + [["append", bottom, mid], ["set_parent", mid, bottom]]))
     cell("deep-chain/move-subtree", *(chain + [["append", D, mid], ["clone", top, True, False]]))
+    # strict merge of text Properties where the first source value is known to dest and a later one would change the
+    # inferred type (a text with a line break): refused before anything is filled in
+    cell("merge/prop/strict-later-value-of-other-inferred-type",
+         ["prop", "q", enc(["v", "l1\nl2"]), "string", None, {"unit": "u", "definition": "d"}], ["merge", Q, len(BASE), True])
+    cell("merge/sec/strict-later-value-of-other-inferred-type", ["prop", "s1", enc(["v"]), "string", B, {}],
+         ["sec", "b", "t", None, {"definition": "src def"}], ["prop", "s1", enc(["v", "l1\nl2"]), "string", len(BASE) + 1, {"unit": "u"}],
+         ["merge", B, len(BASE) + 1, True])
+    # an unnamed object (its id is its name), a copy with the same id next to it, then the copy's name is cleared:
+    # the fall-back name (the id) is taken
+    N1 = len(BASE)
+    cell("clear-name/sibling-carries-the-id/sec", ["sec", None, "t", A, {}], ["clone", N1, True, True], ["rename", N1 + 1, enc("other")],
+         ["append", A, N1 + 1], ["rename", N1 + 1, enc(None)])
+    cell("clear-name/sibling-carries-the-id/prop", ["prop", None, enc([1]), "int", A, {}], ["clone", N1, True, True],
+         ["rename", N1 + 1, enc("other")], ["append", A, N1 + 1], ["rename", N1 + 1, enc("")])
+    cell("clear-name/sibling-named-like-the-id", ["sec", "tmp", "t", A, {"oid": GOOD_ID}], ["sec", GOOD_ID, "t", A, {}], ["rename", N1, enc(None)])
     # a refused operation followed by a rename to a sibling's name (the refusal must not have detached anything)
     cell("refused-then-renamed/remove-not-a-child", ["remove", B, C], ["rename", C, enc("b")])
     cell("refused-then-renamed/prop-remove-not-a-child", ["prop", "k", enc([1]), "int", A, {}], ["remove", B, P], ["rename", P, enc("k")])
